@@ -304,8 +304,12 @@ def split_outputs(text):
     return blocks
 
 
-def run_harness_only(stream, cases, variant="san", timeout=900, jobs=None, env_extra=None):
-    exe = build_harness(variant)
+def run_model_only(stream, cases, timeout=900, jobs=None):
+    return run_harness_only(stream, cases, timeout=timeout, jobs=jobs, exe=driver_path(), key="m")
+
+
+def run_harness_only(stream, cases, variant="san", timeout=900, jobs=None, env_extra=None, exe=None, key="c"):
+    exe = exe or build_harness(variant)
     jobs = jobs or min(NCPU, max(1, len(cases)))
     chunks = [cases[i::jobs] for i in range(jobs)]
 
@@ -315,8 +319,8 @@ def run_harness_only(stream, cases, variant="san", timeout=900, jobs=None, env_e
         text = "\n".join("\n".join(c) for c in chunk) + "\n"
         rc, out, err = run_prog([exe, stream], text, timeout, env_extra)
         b = split_outputs(out)
-        return [{"ops": c, "c": b[i] if i < len(b) else None, "rc_c": rc,
-                 "err_c": err[-3000:] if (rc != 0 and i >= len(b) - 1) else ""} for i, c in enumerate(chunk)]
+        return [{"ops": c, key: b[i] if i < len(b) else None, "rc_" + key: rc,
+                 "err_" + key: err[-3000:] if (rc != 0 and i >= len(b) - 1) else ""} for i, c in enumerate(chunk)]
     with ThreadPoolExecutor(jobs) as ex:
         parts = list(ex.map(work, chunks))
     out = [None] * len(cases)
